@@ -5,7 +5,7 @@ R=${VERIF_REPO:?set VERIF_REPO to a scratch copy}
 cd "$(dirname "$0")/.."
 for d in seeded/*/; do
   id=$(basename $d); p=${id%%-*}
-  git -C $R checkout -q -- . ; git -C $R apply $d/patch.diff 2>/dev/null || { echo "$id APPLY-FAILED"; continue; }
+  git -C $R checkout -q -- . ; git -C $R apply "$(pwd)/$d/patch.diff" 2>/dev/null || { echo "$id APPLY-FAILED"; continue; }
   s=$(date +%s)
   VERIF_BUDGET_S=1200 timeout 1500 ./check $p --tier quick > /tmp/reg_$id.log 2>&1; rc=$?
   e=$(date +%s)
